@@ -25,7 +25,7 @@ pub struct Worker {
 }
 
 impl Worker {
-    pub fn spawn(dir: &Path, clock: Option<u64>, gate_gc: bool) -> Worker {
+    pub fn spawn(dir: &Path, clock: Option<u64>, gate_gc: bool) -> Option<Worker> {
         let exe = std::env::current_exe().unwrap();
         let mut cmd = Command::new(exe);
         cmd.arg("worker").arg(dir);
@@ -49,8 +49,13 @@ impl Worker {
             stdout,
         };
         let ready = w.read_line();
-        assert!(ready["ready"] == json!(true), "worker not ready: {ready}");
-        w
+        if ready["ready"] != json!(true) {
+            // Store::new did not survive: an observation, not a harness failure
+            let _ = w.child.kill();
+            let _ = w.child.wait();
+            return None;
+        }
+        Some(w)
     }
     fn read_line(&mut self) -> Value {
         let mut s = String::new();
@@ -215,6 +220,7 @@ pub struct Run {
     pub probes_per_step: usize,
     pub topics_used: BTreeSet<String>,
     pub ndirs: u32,
+    pub dead: bool,
 }
 
 fn idref(s: &str) -> Value {
@@ -246,15 +252,34 @@ impl Run {
             probes_per_step: probes,
             topics_used: BTreeSet::new(),
             ndirs: 1,
+            dead: false,
         };
-        r.w = Some(Worker::spawn(&r.dir, Some(r.now()), gate_gc));
+        r.w = Worker::spawn(&r.dir, Some(r.now()), gate_gc);
+        if r.w.is_none() {
+            r.dead = true;
+            r.events.push(json!({"e": "crash", "at": "open"}));
+        }
         r
     }
     pub fn now(&self) -> u64 {
         BASE_MS + self.t * UNIT_MS + self.o
     }
     fn call(&mut self, req: Value) -> Value {
-        self.w.as_mut().unwrap().call(req)
+        if self.dead || self.w.is_none() {
+            return json!({"dead": true});
+        }
+        let op = req["op"].clone();
+        let r = self.w.as_mut().unwrap().call(req);
+        if r.get("died").is_some() {
+            self.dead = true;
+            self.events.push(json!({"e": "crash", "at": op}));
+        } else if let Some(p) = r.get("panic") {
+            self.events.push(json!({"e": "panic", "at": op, "msg": p}));
+        }
+        r
+    }
+    fn failed(resp: &Value) -> bool {
+        resp.get("dead").is_some() || resp.get("died").is_some() || resp.get("panic").is_some()
     }
     fn zero() -> String {
         Scru128Id::from_u128(0).to_string()
@@ -328,6 +353,11 @@ impl Run {
             .unwrap_or(Value::Null);
         let resp = self.call(json!({"op": "append", "ctx": ctx_real, "topic": topic_s,
             "ttl": ttl_str(ttl), "meta": meta_v, "content": content_v}));
+        if Self::failed(&resp) {
+            let t = self.t;
+            self.appended.entry(t).or_default().push(None);
+            return;
+        }
         self.note_id(ctx_real);
         self.topics_used.insert(topic.to_string());
         let ok = resp["ok"] == json!(true);
@@ -366,6 +396,9 @@ impl Run {
 
     pub fn op_import_concrete(&mut self, frame: &Value, content_tok_hint: Option<&str>) {
         let resp = self.call(json!({"op": "import", "frame": frame}));
+        if Self::failed(&resp) {
+            return;
+        }
         let ok = resp["ok"] == json!(true);
         if let (Some(h), Some(tok)) = (frame["hash"].as_str(), content_tok_hint) {
             self.hash_tok.entry(h.to_string()).or_insert(tok.to_string());
@@ -396,7 +429,10 @@ impl Run {
     }
 
     pub fn op_remove(&mut self, id_real: &str) {
-        let _ = self.call(json!({"op": "remove", "id": id_real}));
+        let resp = self.call(json!({"op": "remove", "id": id_real}));
+        if Self::failed(&resp) {
+            return;
+        }
         self.note_id(id_real);
         self.events.push(json!({"e": "remove", "id": idref(id_real)}));
     }
@@ -415,6 +451,9 @@ impl Run {
 
     pub fn op_read(&mut self, path: &str, ctx: Option<&str>, last: Option<&str>, lim: Option<u64>) {
         let resp = self.call(json!({"op": "read", "path": path, "ctx": ctx, "last": last, "limit": lim}));
+        if Self::failed(&resp) {
+            return;
+        }
         let frames: Vec<Value> = resp["frames"].as_array().cloned().unwrap_or_default();
         let res: Vec<Value> = frames.iter().map(|f| self.abs_frame(f)).collect();
         if let Some(c) = ctx {
@@ -436,6 +475,9 @@ impl Run {
 
     pub fn op_get(&mut self, id: &str) {
         let resp = self.call(json!({"op": "get", "id": id}));
+        if Self::failed(&resp) {
+            return;
+        }
         self.note_id(id);
         let res: Vec<Value> = if resp["frame"].is_null() {
             vec![]
@@ -448,6 +490,9 @@ impl Run {
     pub fn op_head(&mut self, topic: &str, ctx: &str) {
         let topic_s = self.fam.topics.get(topic).cloned().unwrap_or(topic.to_string());
         let resp = self.call(json!({"op": "head", "topic": topic_s, "ctx": ctx}));
+        if Self::failed(&resp) {
+            return;
+        }
         self.note_id(ctx);
         let res: Vec<Value> = if resp["frame"].is_null() {
             vec![]
@@ -521,6 +566,9 @@ impl Run {
 
     pub fn op_drain(&mut self) {
         let resp = self.call(json!({"op": "drain"}));
+        if Self::failed(&resp) {
+            return;
+        }
         let d = self.abs_dump(&resp["dump"].clone());
         self.events.push(json!({"e": "drain", "dump": d}));
     }
@@ -530,6 +578,9 @@ impl Run {
             return;
         }
         let resp = self.call(json!({"op": "dump"}));
+        if Self::failed(&resp) {
+            return;
+        }
         let d = self.abs_dump(&resp["dump"].clone());
         self.events.push(json!({"e": "dump", "dump": d}));
     }
@@ -539,7 +590,12 @@ impl Run {
             w.stop();
         }
         self.o += 1;
-        self.w = Some(Worker::spawn(&self.dir, Some(self.now()), self.gate_gc));
+        self.w = Worker::spawn(&self.dir, Some(self.now()), self.gate_gc);
+        if self.w.is_none() {
+            self.dead = true;
+            self.events.push(json!({"e": "crash", "at": "open"}));
+            return;
+        }
         self.events.push(json!({"e": "reopen"}));
     }
 
@@ -548,6 +604,9 @@ impl Run {
     pub fn op_xfer(&mut self) {
         self.full_probe();
         let resp = self.call(json!({"op": "read", "path": "sync", "ctx": null, "last": null, "limit": null}));
+        if Self::failed(&resp) {
+            return;
+        }
         let mut frames: Vec<Value> = resp["frames"].as_array().cloned().unwrap_or_default();
         // the read above is an observation too
         let res: Vec<Value> = frames.iter().map(|f| self.abs_frame(f)).collect();
@@ -569,7 +628,12 @@ impl Run {
         self.ndirs += 1;
         std::fs::create_dir_all(&self.dir).unwrap();
         self.o += 1;
-        self.w = Some(Worker::spawn(&self.dir, Some(self.now()), self.gate_gc));
+        self.w = Worker::spawn(&self.dir, Some(self.now()), self.gate_gc);
+        if self.w.is_none() {
+            self.dead = true;
+            self.events.push(json!({"e": "crash", "at": "open"}));
+            return;
+        }
         self.known_ids.clear();
         self.eph_ids.clear();
         self.ctxs.clear();
@@ -690,6 +754,9 @@ impl Run {
     // ------------------------------------------------------------------ abstract ops
 
     pub fn exec_abstract(&mut self, op: &Value) {
+        if self.dead {
+            return;
+        }
         let kind = op["op"].as_str().unwrap_or("");
         match kind {
             "append" => {
@@ -744,9 +811,15 @@ impl Run {
 
     /// finish: final observation, abstract the ids, return the events
     pub fn finish(mut self) -> Vec<Value> {
-        self.full_probe();
-        self.op_drain();
-        self.full_probe();
+        if !self.dead {
+            self.full_probe();
+        }
+        if !self.dead {
+            self.op_drain();
+        }
+        if !self.dead {
+            self.full_probe();
+        }
         if let Some(w) = self.w.take() {
             w.stop();
         }
